@@ -105,6 +105,12 @@ def judge(ch, net, obj, rec, stack, dn, seq, check_values=True, base=None):
                 outcomes = []
                 for srv in net.servers.values():
                     outcomes += [e[3] for e in srv.log if e[0] == i]
+                if not outcomes and op.name not in ("delete_many", "get_many", "gets_many", "set_many", "quit", "close") \
+                        and not stack.startswith("hash"):
+                    # a call that returned normally without any command reaching a server: its result cannot be
+                    # the answer to its own request
+                    out.append(("no-request-sent", i, f"call {i} ({op.label}) returned {short(r['value'])} although no command "
+                                f"of this call reached the server"))
                 if outcomes or op.name in ("delete_many", "get_many", "gets_many"):
                     try:
                         exp = _ops.expected(op, outcomes, dn, obj)
